@@ -41,6 +41,40 @@ def maxAlive (ss : List Srv) : Nat :=
     let alive := (ss.filter (fun o => o.start ≤ s.start && (match o.stop with | some e => s.start < e | none => true))).length
     max m alive) 0
 
+def parseRead (s : String) : Option SrvRead :=
+  match s with
+  | "blind" => some .blind | "msg" => some .msg | "eof" => some .eof | _ => none
+
+/-- op "handshake": one batch through the real `runTestCasesForServer` against a server that starts
+properly and reads its request in one of the legitimate ways (real OS process or in-process, real
+pipes).  C05: every permutation of the batch is handed to the client exactly once, with the server's
+host and port, while that server is alive; the server is stopped when the batch returns. -/
+def judgeHandshake (inp impl : Json) : Verdict :=
+  if !(isNull (field impl "panic")) then
+    { agree := false, holds := false, why := "panic: " ++ str (field impl "panic") } else
+  match parseRead (str (field inp "read")) with
+  | none => { agree := true, holds := true, nontrivial := false, cls := "invalid-input" }
+  | some need =>
+  let n := nat (field inp "n")
+  let kind := str (field inp "kind")
+  let names := sortStrings (strList (field impl "names"))
+  let handed := sortStrings (strList (field impl "handed"))
+  let outs := (arr (field impl "outcomes")).map strList
+  let hang := bool (field impl "hang")
+  let alive := bool (field impl "alive")
+  let addrOK := bool (field impl "addrOK")
+  let seenOK := bool (field impl "seenOK")
+  let allHanded := handed == names && names.length == n
+  let allPass := outs.length == n && outs.all (fun o => (o.drop 1).headD "" == "pass")
+  let holds := !hang && !alive && allHanded && addrOK && allPass && seenOK
+  -- model: the runner's handshake program against this kind of reader
+  let m := handshake need runnerHandshake
+  { agree := m == (allHanded && !hang), holds := holds, nontrivial := true, cls := "handshake:" ++ kind ++ ":" ++ str (field inp "read"),
+    model := Json.mkObj [("handshake", m)],
+    why := if holds then "" else
+      s!"{kind} server reading its request '{str (field inp "read")}': handed to the client {handed.length} of {n} permutations (each exactly once: {allHanded}), " ++
+      s!"host/port filled in {addrOK}, request seen by the server as sent {seenOK}, outcomes {outs}, hang {hang}, server still alive after the batch {alive}" }
+
 def handle : Handler := fun op inp impl =>
   match op with
   | "osserver" => ConfModel.Driver.OSCmd.judgeServer inp impl
@@ -64,7 +98,8 @@ def handle : Handler := fun op inp impl =>
     let holds := ok && reqs.length == n
     { agree := holds && refOK, holds := holds, nontrivial := raw || tls, cls := "fill",
       why := if holds then "" else "request not filled in as required (test name in request headers / raw request headers, host, port, certificate): " ++ (field impl "reqs").compress }
-  | "run" =>
+  | "handshake" => judgeHandshake inp impl
+  | "run" | "fate" =>
     if !(isNull (field impl "panic")) then
       { agree := false, holds := false, why := "panic: " ++ str (field impl "panic") } else
     if str (field impl "loadErr") != "" then
@@ -91,9 +126,14 @@ def handle : Handler := fun op inp impl =>
       else []
     let sentNames := sortStrings (reqs.map (·.name))
     let wantNames := sortStrings (specSel.map ("/".intercalate ·))
-    let serverOK := beh == "ok" || beh == ""
-    -- (1) each selected permutation handed to the client exactly once (when servers start properly)
-    let once := if serverOK then sentNames == wantNames else sentNames.all (wantNames.contains ·) && (dedupSorted sentNames == sentNames)
+    -- a server that reads its input to the end before it answers is a proper server
+    let serverOK := beh == "ok" || beh == "" || beh == "eof"
+    -- the client under test broke down mid-run (its own log says so): what it was handed before is
+    -- judged, and what the runner does about its servers
+    let broke := bool (field impl "breakdown")
+    -- (1) each selected permutation handed to the client exactly once (when servers start properly
+    -- and the client lives; otherwise at most once, and nothing that was not selected)
+    let once := if serverOK && !broke then sentNames == wantNames else sentNames.all (wantNames.contains ·) && (dedupSorted sentNames == sentNames)
     -- (2) test name in the request headers
     let hdrOK := reqs.all (fun r => r.hdrName == [r.name])
     -- (3) both mode: addressed to a server alive at that time with exactly the permutation's instance, cert/creds filled in
@@ -107,23 +147,35 @@ def handle : Handler := fun op inp impl =>
     let alive := maxAlive srvs
     let boundOK := mode != "both" || alive ≤ maxS
     let stoppedOK := srvs.all (fun s => s.stop.isSome)
+    -- … and stopped by the time the run terminates: no started server process is still running at
+    -- the moment Run returns
+    let aliveAtRet := natList (field impl "aliveAtReturn")
+    let retOK := aliveAtRet.isEmpty
     -- (5) gRPC-peer permutations only for supported cases and under marked names
     let grpcOK := reqs.all (fun r =>
       if contains r.name "(grpc server impl)" || contains r.name "(grpc client impl)" || contains r.name "(grpc impl)" then
         r.proto != 1 && (if r.proto == 3 then (r.ver == 1 || r.ver == 2) else r.ver == 2) && r.codec == 1 && (r.comp == 1 || r.comp == 2) && !r.hasCert
       else true)
-    let holds := once && hdrOK && addrOK && boundOK && stoppedOK && returned && grpcOK
+    let holds := once && hdrOK && addrOK && boundOK && stoppedOK && retOK && returned && grpcOK
     -- the model's plan: batches per instance
     let insts := (perms.map (·.1.inst)).eraseDups
     let pl := if v == .ok then plan (perms.map (·.1)) run skip insts else []
     let planNames := sortStrings ((pl.flatMap (·.2)).map (fun p => "/".intercalate p.name))
-    let byServer := srvs.map (fun s => (s.inst, sortStrings ((reqs.filter (·.port == s.port)).map (·.name))))
+    -- a request belongs to the server that listened on its port WHEN it was handed out (the OS may
+    -- give the port of a stopped server to a later one)
+    let byServer := srvs.map (fun s => (s.inst, sortStrings ((reqs.filter (fun r =>
+      r.port == s.port && s.start ≤ r.t && (match s.stop with | some e => r.t ≤ e | none => true))).map (·.name))))
     let planBatches := pl.map (fun b => (b.1, sortStrings (b.2.map (fun p => "/".intercalate p.name))))
     let batchesAgree := mode != "both" || !serverOK ||
-      (byServer.all (fun b => planBatches.contains b) && planBatches.all (fun b => byServer.contains b))
-    { agree := (if serverOK then sentNames == planNames else true) && batchesAgree && (selected.map (·.name) |>.map ("/".intercalate ·) |> sortStrings) == wantNames,
+      (if broke then byServer.all (fun b => planBatches.any (fun q => q.1 == b.1 && b.2.all (q.2.contains ·)))
+       else byServer.all (fun b => planBatches.contains b) && planBatches.all (fun b => byServer.contains b))
+    -- the model of the dispatching loop on a fair schedule (the client dying after the first round
+    -- when it broke down): the closure returns, and with no server alive
+    let final := execSys maxS (initSys pl.length) (fairSchedule pl.length (4 * pl.length + 4) (if broke then some 1 else none))
+    let dispAgree := maxS == 0 || (returned == (final.disp == .returned) && aliveAtRet.length == aliveCount final.threads)
+    { agree := (if serverOK && !broke then sentNames == planNames else true) && batchesAgree && dispAgree && (selected.map (·.name) |>.map ("/".intercalate ·) |> sortStrings) == wantNames,
       holds := holds, nontrivial := reqs.length > 1 && wantNames.length < names.length || srvs.length > 1,
-      cls := mode ++ ":" ++ beh,
+      cls := mode ++ ":" ++ beh ++ (if str (field inp "clientStopHow") != "" then ":client-" ++ str (field inp "clientStopHow") else ""),
       model := Json.mkObj [("selected", wantNames.length), ("batches", pl.length), ("maxAlive", alive)],
       why := if holds then "" else
         (if !once then s!"selected permutations not handed out exactly once: sent {sentNames.length} want {wantNames.length}; " else "") ++
@@ -131,6 +183,7 @@ def handle : Handler := fun op inp impl =>
         (if !addrOK then "request addressed to a server that is not alive / not of the permutation's instance / wrong cert fields; " else "") ++
         (if !boundOK then s!"{alive} servers alive at once, max-servers {maxS}; " else "") ++
         (if !stoppedOK then "a started server was not stopped; " else "") ++
+        (if !retOK then s!"{aliveAtRet.length} started server process(es) still running when Run returned (pids {aliveAtRet}); " else "") ++
         (if !returned then "run did not terminate; " else "") ++
         (if !grpcOK then "gRPC-peer permutation issued for an unsupported case; " else "") }
   | _ => bad ("unknown op " ++ op)
